@@ -417,3 +417,45 @@ def closure_state_writes(outer_node, inner_node):
                 if isinstance(t, ast.Subscript) and isinstance(t.value, ast.Name) and t.value.id in containers and t.value.id not in inner_binds:
                     out.append((n, t.value.id, norm(n)[:80]))
     return out
+
+
+def expand_through_helpers(cls, fn, expr, depth=3):
+    """`expr` of method `fn` with single-assignment locals replaced by their definitions and calls of methods of `cls` whose return-path
+    table is one unconditional path replaced by the returned expression (parameters bound to the arguments): the value an expression
+    denotes, whether it was computed in place or by a small helper"""
+    import copy as _copy
+    from ..loader import expand_locals
+    from .. import paths as _paths
+
+    def go(fnode, e, d):
+        e = expand_locals(fnode, e, depth=4)
+        if d <= 0:
+            return e
+
+        class R(ast.NodeTransformer):
+            def visit_Call(self_, c):
+                self_.generic_visit(c)
+                nm = self_attr(c.func) if isinstance(c.func, ast.Attribute) else None
+                if nm is None and isinstance(c.func, ast.Attribute) and isinstance(c.func.value, ast.Name) and c.func.value.id == cls.name:
+                    nm = c.func.attr
+                m = cls.lookup(nm) if nm else None
+                if m is None or m.is_generator or m.is_property or any(isinstance(a, ast.Starred) for a in c.args) or any(k.arg is None for k in c.keywords):
+                    return c
+                try:
+                    tbl = _paths.return_paths(m.node)
+                except _paths.Unsupported:
+                    return c
+                if len(tbl) != 1 or tbl[0].conds or tbl[0].value is None or tbl[0].raises:
+                    return c
+                prm = [p for p in m.params if p not in ('self', 'cls')] if not m.is_static else list(m.params)
+                bind = dict(zip(prm, c.args))
+                bind.update({k.arg: k.value for k in c.keywords})
+                if set(prm) - set(bind):
+                    return c
+
+                class S(ast.NodeTransformer):
+                    def visit_Name(self__, n):
+                        return _copy.deepcopy(bind[n.id]) if isinstance(n.ctx, ast.Load) and n.id in bind else n
+                return go(m.node, S().visit(_copy.deepcopy(tbl[0].value)), d - 1)
+        return R().visit(e)
+    return go(fn.node, _copy.deepcopy(expr), depth)
